@@ -37,6 +37,7 @@ type CV struct {
 	Elems  []*big.Int // scalar slice / array / string bytes
 	Nil    bool
 	Cap    int
+	Beyond []*big.Int // contents between len and cap
 	Fields []*CV
 	Elem   *CV
 	List   []*CV
@@ -162,20 +163,32 @@ func Replay(w *World, r *FnResult, o *Obligation, repo, tmp string) *ReplayResul
 		qt = append(qt, pa.t)
 		qn = append(qn, "")
 	}
-	// prefer small models: bound all length-like variables
-	var small []*Term
+	// prefer small models: iterative deepening on the input lengths
+	var lenVars []*Term
 	for i, n := range qn {
 		if (strings.HasSuffix(n, ".len") || strings.HasSuffix(n, ".cap")) && !strings.Contains(n, "!") {
-			t := qt[i]
-			if t.S.IsBV() {
-				small = append(small, c.ULe(t, c.BVu(1<<17, t.S.W)))
-			} else if t.S.IsInt() {
-				small = append(small, c.ILe(t, c.Inti(1<<17)))
-			}
+			lenVars = append(lenVars, qt[i])
 		}
 	}
-	sr := w.Solve(c, append(append([]*Term{}, base...), small...), 20, qt)
-	if sr.Status != "sat" {
+	var sr *SolveResult
+	for _, bound := range []int64{0, 1, 2, 4, 8, 16, 64, 1024, 1 << 17} {
+		if len(lenVars) == 0 {
+			break
+		}
+		var small []*Term
+		for _, t := range lenVars {
+			if t.S.IsBV() {
+				small = append(small, c.ULe(t, c.BVu(uint64(bound), t.S.W)))
+			} else if t.S.IsInt() {
+				small = append(small, c.ILe(t, c.Inti(bound)))
+			}
+		}
+		sr = w.Solve(c, append(append([]*Term{}, base...), small...), 10, qt)
+		if sr.Status == "sat" {
+			break
+		}
+	}
+	if sr == nil || sr.Status != "sat" {
 		sr = w.Solve(c, base, 20, qt)
 	}
 	if sr.Status != "sat" || len(sr.Ordered) != len(qt) {
@@ -467,9 +480,10 @@ func (rp *replayer) cv(t types.Type, name string, depth int) *CV {
 		if v, ok := rp.model[name+".cap"]; ok && v.IsInt64() && int(v.Int64()) >= n {
 			cp = int(v.Int64())
 		}
-		cv := &CV{K: "bytes", T: t, Elems: rp.arr(name, cp)[:n], Cap: cp, Nil: rp.bools[name+".isnil"] && cp == 0}
+		full := rp.arr(name, cp)
+		cv := &CV{K: "bytes", T: t, Elems: full[:n], Cap: cp, Nil: rp.bools[name+".isnil"] && cp == 0}
 		if cp > n {
-			cv.List = nil
+			cv.Beyond = full[n:]
 		}
 		return cv
 	case *types.Struct:
@@ -539,7 +553,11 @@ func (rp *replayer) src(cv *CV) string {
 		if _, isArr := cv.T.Underlying().(*types.Array); isArr || cv.Cap <= len(cv.Elems) {
 			return fmt.Sprintf("%s{%s}", ts, sb.String())
 		}
-		return fmt.Sprintf("func() %s { b := make(%s, %d, %d); copy(b, %s{%s}); return b }()", ts, ts, len(cv.Elems), cv.Cap, ts, sb.String())
+		for _, x := range cv.Beyond {
+			sb.WriteString(", ")
+			sb.WriteString(x.String())
+		}
+		return fmt.Sprintf("func() %s { b := make(%s, %d, %d); copy(b, %s{%s}); return b[:%d] }()", ts, ts, cv.Cap, cv.Cap, ts, strings.TrimPrefix(sb.String(), ", "), len(cv.Elems))
 	case "struct":
 		st := cv.T.Underlying().(*types.Struct)
 		var parts []string
